@@ -49,6 +49,11 @@ func init() {
 		NotDecided:  "The merge rules as value-level statements; that the clearing loop's range covers the read loop's range (only must-pass-through is shown).",
 		Assumptions: []string{"A3", "A4", "A5"},
 		Run: func(c *Ctx) {
+			// round 11: existing maps are merged into; codec choice does not depend on what is cached; an index that is not a field's is skipped; the struct reader never reads the target
+			ruleMapKeep(c)
+			ruleKeySelf(c)
+			ruleReadLookup(c)
+			ruleStructNoLoad(c)
 			ruleClearBeforeRead(c)
 			rulePoolLifetime(c)
 			ruleMapSlot(c)
